@@ -42,7 +42,7 @@ def r05_1(ctx, rep):
     rep.extra["R05.1_stats"] = res.stats
     for n in res.notes:
         rep.note(n)
-    rep.require_instances(R, 3, "ownership sources")
+    rep.require_instances(R, 2, "ownership sources")
 
 
 @SPEC.rule(
